@@ -1,75 +1,26 @@
 /-
   The decision expressions regenerated from the repository's source on every run (Generated/Decisions.lean, translated by
-  tools/extract_decisions.py) agree, on their whole domain, with the decisions the hand-written models make.
-
-  Each generated definition is `some f` (the translated Python expression) or `none` (the translator could not follow a
-  restructured source: the statement then holds vacuously and that site is tied by the correspondence alone).
+  tools/extract_decisions.py) agree with the decisions the hand-written models make — one file per area under
+  Properties/Dec/, each imported by the audits of exactly the properties that rest on it; this file only collects them.
 -/
-import Indi.Generated.Decisions
-import Indi.Generated.Registry
-import Indi.Model.Rtr
-import Indi.Model.RtrGlue
-import Indi.Model.Buf
-import Indi.Model.Cli
+import Indi.Properties.Dec.Router
+import Indi.Properties.Dec.Buffer
+import Indi.Properties.Dec.Callback
+import Indi.Properties.Dec.Switch
+import Indi.Properties.Dec.Vector
+import Indi.Properties.Dec.Wait
 
 namespace Indi.Decisions
 open Indi
 
-def policyStr : Rtr.Policy → Str
-  | .never => s "Never"
-  | .also => s "Also"
-  | .only => s "Only"
-
-/-- the delivery condition of `Router.process_message` is the model's `deliverCond`, for both kinds of message and all
-three policies -/
-theorem routerDeliver_agrees (f : Bool → Str → Bool) (h : Generated.routerDeliver? = some f) (b : Bool) (p : Rtr.Policy) :
-    f b (policyStr p) = Rtr.deliverCond b p := by
-  unfold Generated.routerDeliver? at h
-  cases h
-  all_goals (cases b <;> cases p <;> decide +kernel)
-
-/-- `is_blob` is true exactly for `setBLOBVector` among the registered message classes (what `Rtr.rmsgOf` assumes) -/
-theorem routerIsBlob_agrees (f : Str → Bool) (h : Generated.routerIsBlob? = some f) :
-    ∀ c ∈ Generated.messageClasses, f c.tag = (c.tag == s "setBLOBVector") := by
-  unfold Generated.routerIsBlob? at h
-  cases h
-  all_goals decide +kernel
-
-/-- `Driver.accepts` is the model's `accepts` for a named device -/
-theorem driverAccepts_agrees (f : Option Str → Str → Bool) (h : Generated.driverAccepts? = some f)
-    (i : Nat) (name : Str) (device : Option Str) :
-    f device name = Rtr.accepts ⟨i, some name⟩ device := by
-  unfold Generated.driverAccepts? at h
-  cases h
-  all_goals (cases device <;> simp [Rtr.accepts])
-
-/-- the loop guard of `_find_message_in_buffer`: at least one more character after position `pos`
-(the model's `scan` stops when fewer than two characters are left: `cs.length < 2`) -/
-theorem bufLoopGuard_agrees (f : Nat → Nat → Bool) (h : Generated.bufLoopGuard? = some f) (pos len : Nat) :
-    f pos len = decide (pos + 1 < len) := by
-  unfold Generated.bufLoopGuard? at h
-  cases h
-  all_goals (simp only [decide_eq_decide]; omega)
-
-/-- junk recovery is due exactly when a threshold is set and more than that is retained (the model's `processLoop`) -/
-theorem bufCleanupDue_agrees (f : Option Nat → Nat → Bool) (h : Generated.bufCleanupDue? = some f) (T : Option Nat) (n : Nat) :
-    f T n = (match T with | some t => decide (n > t) | none => false) := by
-  unfold Generated.bufCleanupDue? at h
-  cases h
-  all_goals (cases T <;> simp)
-
-/-- `_CallbackConfig.accepts_event` is the model's `Cli.accepts` -/
-theorem callbackAccepts_agrees
-    (f : Option Str → Option Str → Option Str → Option Str → Option Str → Option Str → Bool → Bool)
-    (h : Generated.callbackAccepts? = some f) (cb : Cli.Callback) (ev : Cli.Event) :
-    f cb.device cb.vector cb.element (Cli.evDev ev) (Cli.evVec ev) (Cli.evElem ev) (Cli.evIs cb.evType ev) = Cli.accepts cb ev := by
-  unfold Generated.callbackAccepts? at h
-  cases h
-  all_goals (simp only [Cli.accepts]; cases cb.device <;> cases cb.vector <;> cases cb.element <;> simp [Option.isNone])
-
-/-- how many of the six sites the translator followed on this tree -/
+/-- how many of the nineteen sites the translator followed on this tree -/
 def translatedSites : Nat :=
   [Generated.routerDeliver?.isSome, Generated.routerIsBlob?.isSome, Generated.driverAccepts?.isSome,
-   Generated.bufLoopGuard?.isSome, Generated.bufCleanupDue?.isSome, Generated.callbackAccepts?.isSome].count true
+   Generated.bufLoopGuard?.isSome, Generated.bufCleanupDue?.isSome, Generated.callbackAccepts?.isSome,
+   Generated.routerToDevice?.isSome, Generated.routerToClient?.isSome, Generated.bufSkip?.isSome,
+   Generated.switchTurnsOn?.isSome, Generated.switchClearsOthers?.isSome, Generated.switchKeepsLast?.isSome,
+   Generated.switchIsOtherOn?.isSome, Generated.switchNoOtherOn?.isSome, Generated.vectorEnabled?.isSome,
+   Generated.waitRelease?.isSome, Generated.waitPollGuard?.isSome, Generated.waitTimeoutGuard?.isSome,
+   Generated.waitTimeoutArmed?.isSome].count true
 
 end Indi.Decisions
